@@ -2,7 +2,7 @@
 GENERATED import list — regenerate with `python3 tools/gen_all_imports.py` (from /verif); do not edit the
 imports by hand. `python3 tools/gen_all_imports.py --check` fails if a module on disk is not imported here.
 
-Imports every module of the libraries QmcModel, QmcProofs, QmcProps (175 modules), so that
+Imports every module of the libraries QmcModel, QmcProofs, QmcProps (178 modules), so that
 `lake build QmcAll` certifies that the whole development type-checks in ONE environment: no two modules
 declare the same name (Lean: "environment already contains …"). See design_notes/Cleanup.md.
 
@@ -108,6 +108,7 @@ import QmcProofs.LawGeneric
 import QmcProofs.LawGood
 import QmcProofs.LawHeatBath
 import QmcProofs.LawRand
+import QmcProofs.LawRandF
 import QmcProofs.LawRefresh
 import QmcProofs.LawSlot
 import QmcProofs.LawSweep
@@ -117,6 +118,8 @@ import QmcProofs.LawTravPerm
 import QmcProofs.LawTree
 import QmcProofs.Loop
 import QmcProofs.LoopConsistent
+import QmcProofs.LoopKernel
+import QmcProofs.LoopKernelCut
 import QmcProofs.LoopNoPanic
 import QmcProofs.LoopPath
 import QmcProofs.LoopReverse
